@@ -240,5 +240,8 @@ structure Verdict where
   nontrivial : Bool
   /-- free text: which clause of the oracle failed -/
   note : String := ""
+  /-- set when agreement is decided by a relation other than token equality (e.g. the model
+      is nondeterministic and the implementation matched one of its allowed outcomes) -/
+  agreeOverride : Option Bool := none
 
 end Corerad
